@@ -20,7 +20,12 @@ def splitBar (line : String) : List (List String) :=
 def kfFlags (c : GenCfg) : List (String × GenCfg) :=
   (if c.fallThroughAlways then [("container-fallthrough", { c with fallThroughAlways := false })] else []) ++
   (if c.negIndexPanics then [("negative-index", { c with negIndexPanics := false })] else []) ++
-  (if c.nilInterceptAnyDepth then [("nil-intercept", { c with nilInterceptAnyDepth := false })] else [])
+  (if c.nilInterceptAnyDepth then [("nil-intercept", { c with nilInterceptAnyDepth := false })] else []) ++
+  (if c.elemNilCmpMissing then [("elem-nil-cmp", { c with elemNilCmpMissing := false })] else []) ++
+  (if c.lcRootZero then [("lc-root-zero", { c with lcRootZero := false })] else []) ++
+  (if c.lcScalarSliceZero then [("lc-scalar-slice-zero", { c with lcScalarSliceZero := false })] else []) ++
+  (if c.lcStructStopPanics then [("lc-struct-stop-panics", { c with lcStructStopPanics := false })] else []) ++
+  (if c.lcElemStopZero then [("lc-elem-stop-zero", { c with lcElemStopZero := false })] else [])
 
 def allFixed (c : GenCfg) : GenCfg :=
   (kfFlags c).foldl (fun _acc _x => GenCfg.fixed) c
@@ -39,7 +44,13 @@ def classify {α : Type} [BEq α] (cfg : GenCfg) (model : GenCfg → α) (accept
     else
       let cls := (kfFlags cfg).filter (fun (_, c') => !(model c' == m))
       if !cls.isEmpty then "known " ++ ",".intercalate (cls.map (·.1))
-      else if !(model (allFixed cfg) == m) then "known combination"
+      else
+        -- no single repair changes the outcome: look for a pair of listed defects that does
+        let fl := kfFlags cfg
+        let pairs := fl.flatMap fun (a, ca) => (kfFlags ca).filterMap fun (b, cab) =>
+          if a < b && !(model cab == m) then some (a ++ "+" ++ b) else none
+        if !pairs.isEmpty then "known " ++ ",".intercalate pairs
+        else if !(model (allFixed cfg) == m) then "known combination"
       else "model-viol " ++ sh m
   else
     if accepts impl then "dev-ok " ++ sh m
@@ -95,6 +106,40 @@ def opCmp (st : St) (head pathToks argToks outToks : List String) : String :=
     | _, _, _, _, _, _, _ => "skip unresolved-input"
   | _, _, _ => "skip bad-record"
 
+def parseLcOut (s : String) : Option LcOut :=
+  if s == "untouched" then some .untouched
+  else if s == "err" then some .err
+  else if s == "unsupported" then some .unsupported
+  else if s == "panic" then some .panic
+  else if s.startsWith "val" then
+    match (s.drop 3).toString.toInt? with
+    | some i => if i < 0 then none else some (.val i.toNat)
+    | none => none
+  else none
+
+def showLcOut : LcOut → String
+  | .untouched => "untouched"
+  | .val n => s!"val{n}"
+  | .err => "err"
+  | .unsupported => "unsupported"
+  | .panic => "panic"
+
+instance : BEq LcOut := ⟨fun a b => decide (a = b)⟩
+
+def opLC (st : St) (head pathToks argToks outToks : List String) : String :=
+  match head, argToks, outToks with
+  | [_, tid, form, vid], [fn], [_mut, outTok] =>
+    match st.types[tid]?, st.vals[vid]?, parseForm form, parsePath pathToks, parseLcOut outTok with
+    | some n, some v, some f, some (p, _), some impl =>
+      let isCap := fn == "cap"
+      let okOf (o : LcOut) : Bool :=
+        match rootOf f with
+        | .ok => lcAccepts isCap n v p o
+        | _ => true
+      classify st.cfg (fun c => lcM c isCap n f v p) okOf impl showLcOut
+    | _, _, _, _, _ => "skip unresolved-input"
+  | _, _, _ => "skip bad-record"
+
 def handle (st : St) (line : String) : St × Option String :=
   match splitBar line with
   | ("T" :: tid :: toks) :: _ =>
@@ -116,6 +161,7 @@ def handle (st : St) (line : String) : St × Option String :=
   | [head, path, arg, out] =>
     match head.head? with
     | some "C" => (st, some (opCmp st head path arg out))
+    | some "LC" => (st, some (opLC st head path arg out))
     | _ => (st, some "skip unknown-op")
   | _ => (st, some "skip malformed")
 
